@@ -16,11 +16,9 @@
     measurement while it has a live series, and for a listed measurement it lists every tag key
     and tag value of every series EVER created in it (tsi1 never un-lists a key/value while the
     measurement lives — C14 findings; no index compaction happens at these sizes).
-    [sh_ghost]: series that were dropped from the shard's index while their (name, key, value)
-    series sets sat in the index's TagValueSeriesIDCache and that are still in the series file
-    (alive in another shard): tsm1.Engine.deleteSeriesRange calls Index.DropSeries(id, key,
-    cascade = false), which does not update that cache, so tagValueSeriesIDIterator keeps
-    returning them (finding tsi-tagvalue-cache-stale-after-series-delete). *)
+    Engine.deleteSeriesRange -> Index.DropSeries also removes the id from the cached tag-value
+    series sets (fixed finding tsi-tagvalue-cache-stale-after-series-delete), so a shard answers
+    series lookups with its live series only. *)
 From Coq Require Import String Ascii.
 From Verif Require Import Base.Prelude Model.C15.
 Open Scope string_scope.
@@ -74,7 +72,7 @@ Definition sinter (a b : list string) : list string :=
   filter (fun x => existsb (String.eqb x) b) a.
 
 (** ---- shards ---- *)
-Record shard := { sh_all : list series; sh_dead : list series; sh_ghost : list series }.
+Record shard := { sh_all : list series; sh_dead : list series }.
 Definition live (sh : shard) : list series :=
   filter (fun s => negb (mem s (sh_dead sh))) (sh_all sh).
 Definition has_live (sh : shard) (m : string) : bool := existsb (is_meas m) (live sh).
@@ -101,9 +99,7 @@ Section IndexSet.
 Variable shs : list shard.
 
 Definition is_live : list series := nodup_series (flat_map live shs).
-(** Every series id a selected shard can still produce: live ones and cache ghosts. *)
-Definition is_univ : list series := nodup_series (flat_map (fun sh => (live sh ++ sh_ghost sh)%list) shs).
-Definition alive (s : series) : bool := mem s is_live.
+
 Definition is_names : list string := kmerge_all (map shard_names shs).
 Definition is_keys (m : string) : list string := kmerge_all (map (fun sh => shard_keys sh m) shs).
 Definition is_vals (m k : string) : list string := kmerge_all (map (fun sh => shard_vals sh m k) shs).
@@ -111,9 +107,9 @@ Definition has_tag_key (m k : string) : bool :=
   existsb (fun sh => existsb (String.eqb k) (shard_keys sh m)) shs.
 
 Definition is_index : index := {|
-  ix_meas := fun n => Some (filter (fun s => is_meas n s && alive s) is_univ);
-  ix_key  := fun n k => Some (filter (fun s => is_meas n s && has_key k s && alive s) is_univ);
-  ix_val  := fun n k v => Some (filter (fun s => is_meas n s && has_val k v s) is_univ);  (* ghosts included *)
+  ix_meas := fun n => Some (filter (is_meas n) is_live);
+  ix_key  := fun n k => Some (filter (fun s => is_meas n s && has_key k s) is_live);
+  ix_val  := fun n k v => Some (filter (fun s => is_meas n s && has_val k v s) is_live);
   ix_vals := fun n k => match is_vals n k with [] => None | vs => Some vs end
 |}.
 
@@ -147,7 +143,7 @@ Fixpoint tag_filter_loop (a : authz) (m k : string) (val_equal : string -> bool)
            | None => (true, authorized)                       (* break *)
            | Some f =>
                let authorized' :=
-                 authorized || existsb (fun s => is_meas m s && has_val k ve s && f s) is_univ in
+                 authorized || existsb (fun s => is_meas m s && has_val k ve s && f s) is_live in
                if authorized' then (true, authorized')         (* tagMatch && authorized: break *)
                else tag_filter_loop a m k val_equal r true authorized'
            end
@@ -220,12 +216,12 @@ Definition key_values (a : authz) (m : string) (keys : list string) (filt : opti
       map (fun k =>
              match a with
              | None => is_vals m k
-             | Some f => filter (fun v => existsb (fun s => is_meas m s && has_val k v s && f s) is_univ)
+             | Some f => filter (fun v => existsb (fun s => is_meas m s && has_val k v s && f s) is_live)
                                 (is_vals m k)
              end) keys
   | Some e =>
       (* tagValuesByKeyAndExpr *)
-      match series_by_expr N rmatch is_univ is_index m e with
+      match series_by_expr N rmatch is_live is_index m e with
       | None => map (fun _ => []) keys
       | Some ss =>
           let ss := filter (auth_ok a) ss in
